@@ -20,7 +20,10 @@ Bounded exhaustive enumeration on the real implementation (``Environment(extra=T
   are executed but *excluded*: neither statement nor docs say what they render; the call
   after them must still bind), ``cross`` (call arguments that read a ``with`` variable).
 * family ``with``: every forest of <= 3 (thorough: 4) ``with`` tags over names {v,w} (six
-  argument lists per tag: literal or copy of the other name), a probe printing v and w at the
+  argument lists per tag: literal or copy of the other name) plus every forest of <= 2 (thorough: 3)
+  tags that uses at least one of six *sibling-reference* argument lists (``v: 'L', w: v`` in both
+  orders, and the swap ``v: w, w: v``: argument expressions are not inside the block, so they see
+  the enclosing scope), a probe printing v and w at the
   start of every block, between and after blocks, under every outer binding of v and w
   (unbound / render argument / assign / capture), inside a ``for`` whose loop variable is v
   and inside a macro whose parameter is v.  Oracle: reference scope stack.
@@ -401,14 +404,14 @@ def eval_cross(sig: M.Sig, outer: str) -> tuple[list[tuple[dict[str, Any], str]]
 # ---------------------------------------------------------------------------
 # with
 # ---------------------------------------------------------------------------
-_FORESTS: dict[int, list[M.Forest]] = {}
+_FORESTS: dict[tuple[int, bool], list[M.Forest]] = {}
 CTXS = M.with_contexts()
 
 
-def forests(maxn: int) -> list[M.Forest]:
-    if maxn not in _FORESTS:
-        _FORESTS[maxn] = M.forests(maxn)
-    return _FORESTS[maxn]
+def forests(maxn: int, sibling: bool = False) -> list[M.Forest]:
+    if (maxn, sibling) not in _FORESTS:
+        _FORESTS[(maxn, sibling)] = M.forests(maxn, sibling)
+    return _FORESTS[(maxn, sibling)]
 
 
 def eval_with(ctx: dict[str, str], forest: M.Forest) -> tuple[list[tuple[dict[str, Any], str]], dict[str, Any]]:
@@ -497,12 +500,12 @@ def plan(tier: str) -> list[tuple[int, tuple[Any, ...]]]:
         jobs.append((3 * n_l2, ("order", i)))
     jobs.append((100, ("cross",)))
     jobs.append((20, ("withdup",)))
-    maxn = 3 if tier == "quick" else 4
-    nf = len(forests(maxn))
-    for ci in range(len(CTXS)):
-        for lo in range(0, nf, 1200):
-            hi = min(nf, lo + 1200)
-            jobs.append((2 * (hi - lo), ("with", ci, lo, hi, maxn)))
+    for maxn, sib in ((3, False), (2, True)) if tier == "quick" else ((4, False), (3, True)):
+        nf = len(forests(maxn, sib))
+        for ci in range(len(CTXS)):
+            for lo in range(0, nf, 1200):
+                hi = min(nf, lo + 1200)
+                jobs.append((2 * (hi - lo), ("with", ci, lo, hi, maxn, sib)))
     return jobs
 
 
@@ -520,8 +523,10 @@ class C27(Check):
         "deviating call is re-run alone. "
         "falsy/dispatch/order/cross: nil,false,'' arguments; two macros; calls before definition and to "
         "unknown macros (executed, excluded, the following call checked); call arguments reading a with "
-        "variable. with: every forest of <=3 (thorough 4) with tags x 6 argument lists per tag x 22 outer "
-        "contexts, probe in every gap. Every template is rendered with render and render_async. "
+        "variable. with: every forest of <=3 (thorough 4) with tags x 6 argument lists per tag, plus every "
+        "forest of <=2 (thorough 3) tags over 12 argument lists using at least one sibling reference "
+        "(an argument expression naming a name the same tag binds: evaluated in the enclosing scope), "
+        "x 22 outer contexts, probe in every gap. Every template is rendered with render and render_async. "
         "Non-trivial = a call where something other than plain in-order positional binding decides the "
         "output (surplus, keyword, keyword over positional, duplicate, default, undefined), or a template "
         "with at least one with tag; identity = (family, signature, call, dimensions)."
@@ -530,8 +535,8 @@ class C27(Check):
         "parameter/argument names beyond {p,q,r,x,y} and values beyond the distinct literals used behave alike",
         "an Undefined subclass whose __str__ returns a marker (documented customisation) does not change binding",
         "duplicate keyword names: either occurrence is accepted; kwargs iteration order is observed, not asserted",
-        "duplicate parameter names, parameters called args/kwargs, macro redefinition, a with tag whose "
-        "arguments refer to each other, assign inside with: not fixed by statement or docs, not generated",
+        "duplicate parameter names, parameters called args/kwargs, macro redefinition, assign inside with: "
+        "not fixed by statement or docs, not generated",
         "what a call before the definition / to an unknown macro renders is not specified: executed and counted only",
     ]
 
@@ -544,7 +549,8 @@ class C27(Check):
             "side_dimensions": "default source {render arg, assign, late re-assign}, Undefined {marker, default}, "
             "style {bare, quoted+comma}, globals named p,q,r {absent, present} on " + ("155 keywords-last calls (<=2 kw)" if tier == "quick"
                                                 else "1400 keywords-last/first calls (A,L: all 9705)"),
-            "with": f"forests of <= {3 if tier == 'quick' else 4} with tags, 6 argument lists per tag, 22 outer contexts",
+            "with": f"forests of <= {3 if tier == 'quick' else 4} with tags, 6 argument lists per tag; forests of <= "
+            f"{2 if tier == 'quick' else 3} tags over 12 argument lists with >= 1 sibling reference; 22 outer contexts",
         }
 
     def shards(self, tier: str) -> list[Any]:
@@ -609,16 +615,17 @@ class C27(Check):
                 for s, what in viols:
                     res.violation(s, what, case)
         elif kind == "with":
-            _, ci, lo, hi, maxn = job
+            _, ci, lo, hi, maxn, sib = job
             ctx = CTXS[ci]
-            fs = forests(maxn)
+            fs = forests(maxn, sib)
             for k in range(lo, hi):
                 f = fs[k]
                 viols, case = eval_with(ctx, f)
                 n = M.forest_size(f)
                 res.count("templates", 1)
                 res.case(nontrivial=["with", ctx, f] if n else None,
-                         outcome=f"with:n{n}d{M.forest_depth(f)}:{ctx['wrapper']}:" + ("viol" if viols else "ok"),
+                         outcome=f"with{'-sibling' if sib else ''}:n{n}d{M.forest_depth(f)}:{ctx['wrapper']}:"
+                         + ("viol" if viols else "ok"),
                          sample=case if (k == hi - 1 and ci in (6, 17, 21)) else None)
                 for s, what in viols:
                     res.violation(s, what, case)
